@@ -290,7 +290,7 @@ def check_construction(data: dict, lab: Labels) -> None:
             src = source_of(v)
             if src is not None:
                 spec["default"] = src
-                spec["flags"] = {"init": False}
+                spec["flags"] = {"init": False, "compare": False} if f["pick"] % 3 == 0 else {"init": False}
                 spec["noninit"] = True
         fields.append(spec)
         values[name] = v
@@ -363,6 +363,29 @@ def check_construction(data: dict, lab: Labels) -> None:
             require(got is exp, "is_instance",
                     f"is_instance({live[f['name']]!r:.80}, {types[f['name']]!r:.160}) -> {got}, reference {exp}")
             lab.count("pairs")
+        # validating a value must not make a later, different value of the same shape pass: a
+        # well-typed tuple is checked and dropped, then an ill-typed tuple of the same length (very
+        # likely allocated at the same address) is checked against the same annotation
+        for f in fields:
+            v_ok = live[f["name"]]
+            if not (isinstance(v_ok, tuple) and v_ok and verdicts[f["name"]] is True):
+                continue
+            t_ann = types[f["name"]]
+            for attempt in range(3):
+                fresh_ok = tuple(list(v_ok))
+                require(is_instance(fresh_ok, t_ann) is True, "is_instance", f"well-typed tuple rejected: {fresh_ok!r:.80}")
+                n_el = len(fresh_ok)
+                del fresh_ok
+                bad_t = tuple([3 + 4j, *v_ok[1:]])[:n_el]
+                exp_bad = conforms(bad_t, f["ann"], mod)
+                if exp_bad is None:
+                    break
+                got_bad = is_instance(bad_t, t_ann)
+                require(got_bad is exp_bad, "is_instance",
+                        f"is_instance({bad_t!r:.80}, {t_ann!r:.120}) -> {got_bad} right after a well-typed tuple of that "
+                        f"length was validated and dropped; reference {exp_bad}")
+                del bad_t
+            lab.tag("tuple-revalidated-after-drop")
         lab.nontrivial = any(CF.depth(f["ann"]) >= 2 for f in fields) or any(
             isinstance(v, (bool, tuple, list, frozenset, dict)) or v is None for v in live.values())
         if open_:
